@@ -20,6 +20,9 @@ from ..core import LEAN, write_if_changed
 
 OUT = LEAN / "Operon" / "Gen" / "WiringFlow.lean"
 
+# kinds of callable a handler may be; the last five have a truth value of their own, and it is False
+HANDLER_KINDS = ["func", "lambda", "method", "partial", "obj", "boolfalse", "len0", "collector", "listsub", "dictsub"]
+
 
 def _out(x, lab=None):
     """Outcome: None -> unknown; False -> rejected (WiringError); True -> accepted carrying label `lab`;
@@ -156,6 +159,74 @@ def evaluate():
                     return ("ok", [int(x[1:]) for x in rep.execution_order])
                 sched.append((list(perm), list(src), guard(run_one)))
 
+    # the handler as a callable OBJECT of several kinds - among them objects whose own truth value is false (a collector
+    # with __len__ that is empty before its first run, empty list / dict subclasses with __call__, __bool__ False) - on the
+    # source, the inner and the sink module of a chain m0 -> m1 -> m2 declared m2, m1, m0: what the real execute() does
+    import functools
+    hobj = []
+    if nD >= 1 and nI >= 1:
+        P = W.PortType(DTs[0], ILs[0])
+
+        def as_kind(kind, fn):
+            if kind == "func":
+                return fn
+            if kind == "lambda":
+                return lambda inputs: fn(inputs)
+            if kind == "partial":
+                return functools.partial(fn)
+            if kind == "method":
+                class Service:
+                    def handle(self, inputs):
+                        return fn(inputs)
+                return Service().handle
+            if kind == "listsub":
+                class Pipeline(list):
+                    def __call__(self, inputs):
+                        return fn(inputs)
+                return Pipeline()
+            if kind == "dictsub":
+                class Registry(dict):
+                    def __call__(self, inputs):
+                        return fn(inputs)
+                return Registry()
+
+            class Obj:
+                seen = 0
+
+                def __call__(self, inputs):
+                    self.seen += 1
+                    return fn(inputs)
+            if kind == "boolfalse":
+                Obj.__bool__ = lambda self: False
+            elif kind == "len0":
+                Obj.__len__ = lambda self: 0
+            elif kind == "collector":
+                Obj.__len__ = lambda self: self.seen
+            return Obj()
+
+        for kind in HANDLER_KINDS:
+            for pos in range(3):
+                def run_obj():
+                    dg = W.WiringDiagram()
+                    dg.add_module(W.ModuleSpec("m2", inputs={"i": P}))
+                    dg.add_module(W.ModuleSpec("m1", inputs={"i": P}, outputs={"o": P}))
+                    dg.add_module(W.ModuleSpec("m0", outputs={"o": P}))
+                    dg.connect("m0", "o", "m1", "i")
+                    dg.connect("m1", "o", "m2", "i")
+                    ex = R.DiagramExecutor(dg)
+                    log = []
+                    for m in range(3):
+                        fn = (lambda mm: lambda inputs: (log.append(mm), {} if mm == 2 else {"o": mm})[1])(m)
+                        ex.register_module(f"m{m}", as_kind(kind, fn) if m == pos else fn)
+                    try:
+                        rep = ex.execute()
+                    except WiringError:
+                        return ("err", [], list(log))
+                    if list(rep.modules) != rep.execution_order:
+                        return None
+                    return ("ok", [int(x[1:]) for x in rep.execution_order], list(log))
+                hobj.append((kind, pos, guard(run_obj)))
+
     # raw values take the port's label
     def raw(fn):
         out = []
@@ -172,7 +243,7 @@ def evaluate():
     facts = {
         "nD": nD, "nI": nI, "dts": [d.value for d in DTs], "ils": [l.name for l in ILs],
         "quads": quads, "can": can, "req": req, "con": con, "cout": cout, "cin": cin,
-        "wchk": wchk, "wunchk": wunchk, "wext": wext, "sched": sched, "rawout": raw(R._coerce_output), "rawin": raw(R._coerce_input),
+        "wchk": wchk, "wunchk": wunchk, "wext": wext, "sched": sched, "hobj": hobj, "rawout": raw(R._coerce_output), "rawin": raw(R._coerce_input),
     }
     return facts, sorted(set(notes))[:5]
 
@@ -258,6 +329,24 @@ def render(f, notes) -> str:
                                         (r[1] if r else []))
             for perm, src, r in f.get("sched", [])) + "]",
         "",
+        "/-- one run of the real execute() on the chain m0 -> m1 -> m2 (declared m2, m1, m0; every module has a handler) where",
+        "    the handler of module `pos` is a callable of the kind `kind` (func, lambda, method, partial, obj: truthy; boolfalse,",
+        "    len0, collector, listsub, dictsub: callables whose own truth value is FALSE); `known` = report or WiringError;",
+        "    `order` = execution_order of the report, `calls` = the handler invocations -/",
+        "structure HandlerObjRow where",
+        "  kind : String",
+        "  pos : Nat",
+        "  known : Bool",
+        "  ok : Bool",
+        "  order : List Nat",
+        "  calls : List Nat",
+        "  deriving DecidableEq, Repr",
+        "",
+        "def handlerObjects : List HandlerObjRow := [\n" + ",\n".join(
+            '  ⟨"%s", %d, %s, %s, %s, %s⟩' % (kind, pos, "true" if r else "false", "true" if (r and r[0] == "ok") else "false",
+                                            (r[1] if r else []), (r[2] if r else []))
+            for kind, pos, r in f.get("hobj", [])) + "]",
+        "",
         rawtbl("coerceOutputRaw", f["rawout"], "_coerce_output(raw, port): label of the result"),
         rawtbl("coerceInputRaw", f["rawin"], "_coerce_input(raw, port): label of the result"),
         "end Operon.Gen.WiringFlow",
@@ -270,7 +359,8 @@ def run() -> dict:
     facts, notes = evaluate()
     changed = write_if_changed(OUT, render(facts, notes))
     unknown = 0 if facts is None else (sum(1 for k in ("can", "req", "con", "cout", "cin", "wchk", "wunchk", "wext", "rawout", "rawin")
-                                           for v in facts[k] if v is None) + sum(1 for _, _, r in facts["sched"] if r is None))
+                                           for v in facts[k] if v is None) + sum(1 for _, _, r in facts["sched"] if r is None)
+                                           + sum(1 for _, _, r in facts["hobj"] if r is None))
     return {"id": "E6", "facts_changed": changed, "file": str(OUT.relative_to(LEAN)),
-            "entries": 0 if facts is None else 8 * len(facts["quads"]) + 2 * facts["nD"] * facts["nI"] + len(facts["sched"]),
+            "entries": 0 if facts is None else 8 * len(facts["quads"]) + 2 * facts["nD"] * facts["nI"] + len(facts["sched"]) + len(facts["hobj"]),
             "unknown_entries": unknown if facts is not None else -1, "notes": notes}
